@@ -419,21 +419,9 @@ func runCmpOverlap(c *Ctx, r *RuleRun) {
 		r.Undecided("-", "types.ParseKey", "", "anchors not found")
 		return
 	}
-	isElemList := func(t types.Type) bool {
-		sl, ok := t.Underlying().(*types.Slice)
-		if !ok {
-			return false
-		}
-		pt, ok := sl.Elem().Underlying().(*types.Pointer)
-		if !ok {
-			return false
-		}
-		n, ok := pt.Elem().(*types.Named)
-		return ok && n.Obj().Pkg() != nil && n.Obj().Pkg().Path() == "container/list" && n.Obj().Name() == "Element"
-	}
 	n := 0
 	for _, f := range p.Funcs {
-		if !p.recvIs(f, "levelManager") || f.Signature.Results().Len() != 1 || !isElemList(f.Signature.Results().At(0).Type()) {
+		if !isTableSelector(p, f) {
 			continue
 		}
 		var bounds []*ssa.Parameter
@@ -728,31 +716,72 @@ func runRecoverEndlog(c *Ctx, r *RuleRun) {
 	}
 	var classify func(cond ssa.Value, truth bool) (string, bool)
 	// a flag tested by the loop (`for !torn && …`) that becomes true only where a record was classified as torn
-	flagFromTorn := func(ph *ssa.Phi) (string, bool) {
-		why, any := "", false
-		for i, e := range ph.Edges {
-			if e == ssa.Value(ph) || isConstBool(e, false) {
-				continue
+	// whyTrue: the boolean v, as it arrives over the edge out of block pred, is either known to be false there or is
+	// true only for a reason that classifies a torn record
+	var flagReasons []string // every reason for which the flag last looked at can be true
+	var whyTrue func(v ssa.Value, pred, succ *ssa.BasicBlock, depth int) (why string, isTrue, ok bool)
+	whyTrue = func(v ssa.Value, pred, succ *ssa.BasicBlock, depth int) (string, bool, bool) {
+		if isConstBool(v, false) {
+			return "", false, true
+		}
+		// the branch decisions known on the edge pred -> succ
+		var conds []CondEdge
+		if pred != nil && len(pred.Instrs) > 0 {
+			last := pred.Instrs[len(pred.Instrs)-1]
+			conds = dominatingConds(last)
+			if iff, isIf := last.(*ssa.If); isIf && len(pred.Succs) == 2 && pred.Succs[0] != pred.Succs[1] {
+				conds = append(conds, CondEdge{If: iff, Truth: pred.Succs[0] == succ})
 			}
-			if !isConstBool(e, true) {
-				return "", false
+		}
+		if !isConstBool(v, true) {
+			for _, ce := range conds {
+				cm := canonCond(ce.If.Cond, ce.Truth)
+				if cm.Y == nil && cm.X == v && cm.Op == "false" {
+					return "", false, true
+				}
 			}
-			pred := ph.Block().Preds[i]
-			found := false
-			for _, ce := range dominatingConds(pred.Instrs[len(pred.Instrs)-1]) {
+		}
+		switch x := v.(type) {
+		case *ssa.Const:
+			for _, ce := range conds {
 				if _, isPhi := ce.If.Cond.(*ssa.Phi); isPhi {
 					continue
 				}
 				if w, ok := classify(ce.If.Cond, ce.Truth); ok {
-					found, why = true, w
+					flagReasons = append(flagReasons, w)
+					return w, true, true
 				}
 			}
-			if !found {
-				return "", false
+		case *ssa.BinOp, *ssa.Call:
+			if w, ok := classify(v, true); ok {
+				flagReasons = append(flagReasons, w)
+				return w, true, true
 			}
-			any = true
+		case *ssa.Phi:
+			if depth > 2 {
+				return "", false, false
+			}
+			why, any := "", false
+			for i, e := range x.Edges {
+				if e == v {
+					continue
+				}
+				w, t, ok := whyTrue(e, x.Block().Preds[i], x.Block(), depth+1)
+				if !ok {
+					return "", false, false
+				}
+				if t {
+					why, any = w, true
+				}
+			}
+			return why, any, true
 		}
-		return why, any
+		return "", false, false
+	}
+	flagFromTorn := func(ph *ssa.Phi) (string, bool) {
+		flagReasons = nil
+		why, any, ok := whyTrue(ph, nil, nil, 0)
+		return why, any && ok
 	}
 	classify = func(cond ssa.Value, truth bool) (string, bool) {
 		cm := canonCond(cond, truth)
@@ -885,10 +914,19 @@ func runRecoverEndlog(c *Ctx, r *RuleRun) {
 				}
 			}
 			n++
+			flagReasons = nil
 			why, ok := classify(iff.Cond, si == 0)
 			label := "end of log"
 			if ok {
 				label = "end of log: " + kindOf(why)
+				// one exit on a flag stands for every reason the flag is raised for
+				seenKind := map[string]bool{kindOf(why): true}
+				for _, w2 := range flagReasons {
+					if k2 := kindOf(w2); !seenKind[k2] {
+						seenKind[k2] = true
+						r.Hold(fn, "end of log: "+k2, p.Pos(instrPos(iff)), w2)
+					}
+				}
 			}
 			r.Check(ok, fn, label, p.Pos(instrPos(iff)), why,
 				"the record loop treats the rest of the log as absent on a condition that a complete, acknowledged record can satisfy (not a short read, not a length beyond the remaining bytes): every record from there on is dropped at recovery and the old log is then deleted")
@@ -939,8 +977,14 @@ func runRecoverEndlog(c *Ctx, r *RuleRun) {
 								if pb != prev || k >= len(ph.Edges) {
 									continue
 								}
-								if c, isC := ph.Edges[k].(*ssa.Const); isC && c.Value != nil {
-									val := isConstBool(c, true) != neg
+								c, isC := ph.Edges[k].(*ssa.Const)
+								// the flag is the very condition this edge decided (`if torn = …; torn { continue }`)
+								decided := prev == b && ph.Edges[k] == iff.Cond
+								if (isC && c.Value != nil) || decided {
+									val := isConstBool(ph.Edges[k], true) != neg
+									if decided {
+										val = (si == 0) != neg
+									}
 									succ := cur.Succs[1]
 									if val {
 										succ = cur.Succs[0]
